@@ -74,13 +74,17 @@ ScanLines(lines, k, s) ==
                     !.curdir = IF cnt THEN s.curdir \cup {k} ELSE s.curdir,
                     !.dirs = IF endsBs THEN s.dirs ELSE Append(s.dirs, IF cnt THEN s.curdir \cup {k} ELSE s.curdir)]))
   ELSE IF f = 0 THEN ScanLines(lines, k + 1, s)                                    \* blank
-  ELSE IF s.q = "" /\ ln[f] = "#" THEN
+  ELSE IF ln[f] = "#" THEN        \* (the preprocessor runs first: also between the pieces of a continued literal)
        \* a preprocessor directive may sit between the lines of a continued statement
        ScanLines(lines, k + 1, TLCEval([s EXCEPT !.dcont = endsBs, !.counted = s.counted \cup {k}, !.curdir = {k},
                     !.dirs = IF endsBs THEN s.dirs ELSE Append(s.dirs, {k})]))
-  ELSE IF s.q = "" /\ IsSentinel(ln, f) THEN
-       ScanLines(lines, k + 1, TLCEval([s EXCEPT !.counted = s.counted \cup {k}]))
-  ELSE IF s.q = "" /\ ln[f] = "!" THEN ScanLines(lines, k + 1, s)                  \* ordinary comment
+  ELSE IF (s.q = "" \/ s.cont) /\ IsSentinel(ln, f) THEN
+       \* a directive sentinel inside a continued statement is a directive to one compiler and a
+       \* comment to another: outside the well-formed texts
+       ScanLines(lines, k + 1, TLCEval([s EXCEPT !.counted = s.counted \cup {k}, !.ok = s.ok /\ ~s.cont]))
+  \* ordinary comment line; comment lines may also stand between the lines of a continued
+  \* statement, even while a character literal is being continued
+  ELSE IF (s.q = "" \/ s.cont) /\ ln[f] = "!" THEN ScanLines(lines, k + 1, s)
   ELSE
   LET start == IF s.cont /\ ln[f] = "&" THEN f + 1 ELSE f          \* optional leading & of a continuation
       r == LineR(ln, start, s.q, FALSE, FALSE)
